@@ -17,6 +17,7 @@ type CompObs struct {
 	S2T     string // sorted "sl,sc,tl,tc;" list
 	T2S     string
 	GenSame string // implementation only: same | diff:<hex> | na
+	Repeat  string // implementation only: same | diff:<hex> — the same bytes compiled again, twice, in the same process
 	Lookups string // implementation only: ok | bad:<hex> — the two lookup functions against their own tables
 	EmitErr string
 	Chk     string // model only: S/s = source runs pairwise disjoint or not, T/t = target runs
@@ -117,6 +118,9 @@ func parseImplReply(r proc.Reply) CompObs {
 	o.GenSame = f[4]
 	if len(f) >= 6 {
 		o.Lookups = f[5]
+	}
+	if len(f) >= 7 {
+		o.Repeat = f[6]
 	}
 	return o
 }
